@@ -8,6 +8,7 @@ import (
 	"context"
 	"encoding/json"
 	"fmt"
+	"runtime"
 	"sort"
 	"strings"
 	"time"
@@ -30,10 +31,37 @@ func IsPanic(s string) bool { return strings.HasPrefix(s, PanicPrefix) }
 func S(f func() string) (res string) {
 	defer func() {
 		if r := recover(); r != nil {
-			res = fmt.Sprintf("%s%v)", PanicPrefix, r)
+			res = fmt.Sprintf("%s%v)@%s", PanicPrefix, r, panicSite())
 		}
 	}()
 	return f()
+}
+
+// panicSite names the innermost function of the library on the panicking
+// stack (called from a deferred function while panicking).
+func panicSite() string {
+	pcs := make([]uintptr, 64)
+	n := runtime.Callers(3, pcs)
+	frames := runtime.CallersFrames(pcs[:n])
+	for {
+		fr, more := frames.Next()
+		if strings.HasPrefix(fr.Function, "github.com/cockroachdb/errors") {
+			fn := fr.Function[len("github.com/cockroachdb/errors"):]
+			return strings.TrimPrefix(fn, "/")
+		}
+		if !more {
+			break
+		}
+	}
+	return "outside-library"
+}
+
+// PanicSite extracts the library function named in a captured panic.
+func PanicSite(s string) string {
+	if i := strings.LastIndex(s, ")@"); i >= 0 && IsPanic(s) {
+		return s[i+2:]
+	}
+	return ""
 }
 
 // Node is the observation of one visible layer.
